@@ -205,6 +205,8 @@ class Fault:
                                      'x' direct / 'r_x' through a reference), variant
          cls payload : site = owner of the stream, kind corrupt|truncate, pos, mode (corrupt: flip|low)
          cls file    : kind truncate, pos = number of bytes kept
+         cls multi   : kind dup_kids_all (every /Kids element written twice at every level)
+         mode nocache (cycle faults and dup_kids_all): the entry points are run with their caches off
          cls xrefent : site = xrefent:k/n, kind ent_dangling|ent_other|ent_mid|ent_free|ent_in_self|ent_in_missing|
                                                 ent_in_nonstream|ent_idx_big"""
 
@@ -218,6 +220,7 @@ class Fault:
         self.pos = int(d.get("pos", 0))
         self.mode = d.get("mode", "")
         self.owner, self.path = parse_site(self.site) if self.site else ("", [])
+        self.nocache = self.mode == "nocache"       # run the entry points with their caches off
 
     def label(self):
         x = self.kind
@@ -227,6 +230,8 @@ class Fault:
             x += ".%d" % self.variant
         if self.cls in ("payload", "file"):
             x += "@%d%s" % (self.pos, ("." + self.mode) if self.mode else "")
+        elif self.nocache:
+            x += ".nocache"
         return x
 
     def key(self):
@@ -384,6 +389,7 @@ def _assemble_once(seed, f, prevlay, header):
     size = 1
     nrev = len(seed.revs)
     applied = [0]
+    dup_applied = [0]
     newest = {}
     for k, rev in enumerate(seed.revs):
         for n in rev.objects:
@@ -420,6 +426,12 @@ def _assemble_once(seed, f, prevlay, header):
 
     for k, rev in enumerate(seed.revs):
         objects = copy.deepcopy(rev.objects)
+        if f is not None and f.cls == "multi":
+            # dup_kids_all: every element of every /Kids array is written twice, at every level at once
+            for v in objects.values():
+                if isinstance(v, dict) and isinstance(v.get("Kids"), list) and v["Kids"]:
+                    v["Kids"] = [x for kid in v["Kids"] for x in (kid, copy.deepcopy(kid))]
+                    dup_applied[0] += 1
         last = k == nrev - 1
         if last:
             objects.update(copy.deepcopy(helpers))
@@ -595,7 +607,10 @@ def _assemble_once(seed, f, prevlay, header):
             out += b"startxref\n" + txt + b"\n%%EOF\n"
         size = maxid + 1
     lay.size = len(out)
-    if f is not None and f.cls != "file" and applied[0] != 1 and prevlay is not None:
+    if f is not None and f.cls == "multi":
+        if not dup_applied[0]:
+            raise MachineryError("faultdoc: dup_kids_all found no /Kids array in %s" % seed.name)
+    elif f is not None and f.cls != "file" and applied[0] != 1 and prevlay is not None:
         raise MachineryError("faultdoc: fault %s was applied %d times to %s" % (f.key(), applied[0], seed.name))
     return bytes(out), lay
 
